@@ -580,10 +580,12 @@ class World:
     step = op['step']
     if self.pending is not None and not self.asyn:
       raise kernel.HarnessError('pending in sync mode')
-    if self.pending is not None and (self.k['faults'] or self.expect_error(step, op['overwrite'])):
-      # keep fault windows and the changes-nothing check attributable to one save: drain the in-flight save first
-      # (fault-free async histories still exercise the implicit wait inside save_checkpoint)
+    if self.pending is not None and self.k['faults']:
+      # keep fault windows attributable to one save: drain the in-flight save first
+      # (fault-free async histories exercise the implicit wait inside save_checkpoint, including the case
+      # where the policy must reject a save issued while the previous one is still in flight)
       self.wait(oi)
+    had_pending = self.pending is not None
     exp_err = self.expect_error(step, op['overwrite'])
     if exp_err:
       res.probe('policy_error_expected')
@@ -628,7 +630,11 @@ class World:
         raise kernel.HarnessError('async ioerror not generated')
       if not exp_err:
         raise Violation('unexpected-exception', f'{where}: raised {type(err).__name__}: {err} although the policy allows the save')
-      if self.disk.snapshot() != snap_before:
+      if had_pending:
+        # the in-flight save completed inside the rejected call: the directory must be exactly what the model
+        # (which does not contain the rejected save) promises
+        self.wait(oi)
+      elif self.disk.snapshot() != snap_before:
         raise Violation('rejected-save-changed-directory', f'{where}: raised {type(err).__name__} but the directory changed')
       if op.get('_retry'):
         res.probe('retry_rejected_committed')
